@@ -1,6 +1,7 @@
 """C03 - Marshal agrees with encoding/json on errors and on the emitted JSON text."""
 import json
 import os
+import time
 
 from . import common as c
 from . import C03_lib as L
@@ -59,7 +60,10 @@ def run(ctx):
         "the x86 code generator is not modelled: the JIT is tied to the model by running it",
         "encoding/json of the toolchain (1.23) has no omitzero: omitzero cases are compared model<->implementation only",
     ]
+    t0 = time.time()
+    ctx.cov["phase_s"] = {}
     p_ok = c.standard_P(ctx, CLAIM["gens"], L.SUPPORT)
+    ctx.cov["phase_s"]["P"] = round(time.time() - t0, 1)
     problems = []
     if not p_ok:
         problems.append(("P", getattr(ctx, "p_fail", "proof half failed")))
@@ -67,11 +71,13 @@ def run(ctx):
     if not ok:
         ctx.violation("harness does not build against the repository: " + hb[-1500:], {"build": hb}, False)
         return
+    t1 = time.time()
     mok, mexe = c.build_model("C03")
+    ctx.cov["phase_s"]["model_build"] = round(time.time() - t1, 1)
     if not mok:
         problems.append(("T", "model extraction/driver build failed: " + mexe[-1200:]))
     d = L.work("C03")
-    n = 1500 if ctx.tier == "quick" else 40000
+    n = 1200 if ctx.tier == "quick" else 40000
     only = None
     if ctx.replay:
         try:
@@ -198,6 +204,7 @@ def run(ctx):
                        "every case: IR of both pv in both processes, ConfigStd.Marshal in a JIT and a VM process, encoding/json, reference encoder")
     ctx.cov["distribution"] = dist
     ctx.cov["counts"] = st
+    ctx.cov["phase_s"].update(L.TIMES)
     ctx.cov["skipped_too_large"] = len(skipped)
     ctx.cov["traces_validated_against_impl"] = st["val"] - st["val_bad"] - st["cache_sensitive"]
     for cid in list(feat)[:3] + list(feat)[-3:]:
